@@ -2,12 +2,16 @@ import UrcuVerif.CallRcu.Inv
 import UrcuVerif.CallRcu.InvB
 import UrcuVerif.CallRcu.InvF
 import UrcuVerif.CallRcu.InvD
-import UrcuVerif.CallRcu.Wake
+import UrcuVerif.CallRcu.InvE
+import UrcuVerif.CallRcu.InvL
+import UrcuVerif.CallRcu.Destroy
+import UrcuVerif.CallRcu.InvW
+import UrcuVerif.CallRcu.WakeInv
 /-!
 # C03 — call_rcu(): every callback runs exactly once, only after a full grace period
 
-Statements only (models: `CallRcu/Model.lean`, `CallRcu/Wake.lean`; invariants: `CallRcu/Inv*.lean`,
-`CallRcu/WakeInv.lean`).  Everything is about *every* reachable state of the model, i.e. for all
+Statements only (models: `CallRcu/Model.lean`, `CallRcu/Wake.lean`; invariants: `CallRcu/Inv.lean` (placement),
+`InvB` (timing), `InvF` (order), `InvD` + `InvE` + `InvL` (destruction), `InvW` (sleep / wake-up), `WakeInv.lean`).  Everything is about *every* reachable state of the model, i.e. for all
 interleavings of any number of enqueuing threads, helper threads, readers, creators and destroyers
 of helpers, all helper assignments and all futex outcomes.
 
@@ -15,13 +19,15 @@ Safety (`cb_at_most_once`, `cb_conserved`, `cb_after_gp`, `cb_same_head`, `cb_fi
 `no_enqueue_to_freed_helper`) is proved on the sequentially consistent model: every store of the
 call_rcu code that these properties depend on is a locked instruction (`xchg` of the queue tail,
 `lock or/and` on the flags) or is made under `call_rcu_mutex`; the one plain store that is delayed by
-the x86-TSO store buffer in this file, `futex := 0`, is modelled with its buffer in `CallRcu/Wake.lean`,
-where the sleep/wake-up protocol is proved (`helper_no_lost_wakeup`, `helper_no_stuck`, measures).
+the x86-TSO store buffer in this file, `futex := 0`, takes effect at a step of its own (`stFutex`) that may be
+delayed up to the `FUTEX_WAKE` system call – exactly its TSO behaviours, the waker makes no access in between –
+and is modelled with an explicit store buffer in the stand-alone `CallRcu/Wake.lean`; the sleep/wake-up
+protocol is proved on both (`helper_no_lost_wakeup`, `tso_no_lost_wakeup`, `helper_no_stuck`, measures).
 
 "Exactly once" = `cb_at_most_once` + `cb_conserved` (a registered callback is never lost: it is in
-exactly one place until it has run) + the liveness part (`helper_no_lost_wakeup`, `helper_progress`:
-a queued callback's helper always has an enabled step or is legitimately waiting, and a bounded
-number of its own steps leads to the invocation); "eventually" additionally needs a fair scheduler,
+exactly one place until it has run) + the liveness part (`helper_no_lost_wakeup`, `waker_not_stuck`,
+`waker_measure`, `helper_no_stuck`, `helper_measure`: a queued callback's helper always has an enabled step or is
+legitimately waiting, and a bounded number of its own steps leads to the invocation; `C03_full` unproved); "eventually" additionally needs a fair scheduler,
 terminating callbacks and read-side sections that end (trusted base 5).
 -/
 namespace UrcuVerif.CallRcu
@@ -30,6 +36,15 @@ theorem inv_reach (c : Cfg) {s : State} (h : Reach c s) : InvA c s ∧ InvB c s 
   induction h with
   | init => exact ⟨invA_init c, invB_init c, invF_init c⟩
   | step _ st ih => exact ⟨inva_step c ih.1 st, invb_step c ih.1 ih.2.1 st, invf_step c ih.1 ih.2.2 st⟩
+
+theorem inv_reach_d (c : Cfg) {s : State} (h : Reach c s) :
+    InvA c s ∧ InvB c s ∧ InvD c s ∧ InvE c s ∧ InvL c s ∧ InvW c s := by
+  induction h with
+  | init => exact ⟨invA_init c, invB_init c, invD_init c, invE_init c, invL_init c, invW_init c⟩
+  | step _ st ih =>
+    obtain ⟨a, b, d, e, l, w⟩ := ih
+    exact ⟨inva_step c a st, invb_step c a b st, invd_step c a d st, inve_step c a b d e st, invl_step c a d l st,
+      invw_step c a d w st⟩
 
 /-- **cb_at_most_once**: no callback is ever invoked twice; it has been invoked exactly when it is
 running or has finished. -/
@@ -148,5 +163,324 @@ theorem cb_fifo_per_helper (c : Cfg) {s : State} (h : Reach c s) (x : Nat) (hr :
     s.invLog x ++ s.batch x ++ s.queue x = s.enqLog x := by
   have F := (inv_reach c h).2.2
   simpa [List.append_assoc] using F.fifo x hr
+
+/-- **no_enqueue_to_freed_helper** (hand-over on destroy): whenever a thread is inside `_call_rcu()` /
+`wake_call_rcu_thread()` on helper `x` – i.e. is about to exchange `x`'s queue tail or accesses `x`'s `qlen`,
+`flags`, `futex`, be it from `call_rcu()`, `rcu_barrier()` or `call_rcu_data_free()` – the structure has not
+been freed, `x` is still in `call_rcu_data_list` and `call_rcu_data_free(x)` has not yet dealt with `x`'s
+leftovers (`retired x = false`): whatever is enqueued will be run by `x` or handed over to the default helper
+(`cb_conserved`, `leftovers_handed_over`), never dropped.  Uses the read-side section `call_rcu()` holds across
+the selection and the enqueue, and the caller obligations `FreeObl` (the documented contract of
+`call_rcu_data_free`: removed from per-thread use; removed from the per-CPU array and a grace period since). -/
+theorem no_enqueue_to_freed_helper (c : Cfg) {s : State} (h : Reach c s) (t x : Nat) (k : K)
+    (ht : (s.tpc t).tgt = some (x, k)) :
+    s.freed x = false ∧ s.retired x = false ∧ x < s.nextH ∧ x ∈ s.list :=
+  tgt_live c h t x k ht
+
+/-- **leftovers_handed_over**: once `call_rcu_data_free(x)` has dealt with `x`'s leftovers (queue found empty
+under the mutex, or spliced onto the default helper), `x` holds no callback and never will again; every helper
+that holds a callback is in `call_rcu_data_list` (so `rcu_barrier()` reaches it). -/
+theorem leftovers_handed_over (c : Cfg) {s : State} (h : Reach c s) (x : Nat) :
+    (s.retired x = true → s.queue x = [] ∧ s.batch x = [] ∧ s.cur x = none) ∧
+    (s.queue x ≠ [] ∨ s.batch x ≠ [] ∨ s.cur x ≠ none → x ∈ s.list) :=
+  ⟨retired_empty c h x, holder_listed c h x⟩
+
+/-- **free_protocol**: a helper is destroyed by at most one thread at a time; its structure is freed only
+after its thread has set STOPPED (and is dead: the store of STOPPED is its last access), after the
+leftovers were dealt with, and after it has left `call_rcu_data_list`; its queue is then empty for ever
+(nothing is lost with the structure). -/
+theorem free_protocol (c : Cfg) {s : State} (h : Reach c s) (x : Nat) (hf : s.freed x = true) :
+    s.retired x = true ∧ s.stopped x = true ∧ s.hpc x = .dead ∧ x ∉ s.list ∧
+    (∀ t1 t2 g1 g2, (s.tpc t1).freeing = some (x, g1) → (s.tpc t2).freeing = some (x, g2) → t1 = t2) := by
+  obtain ⟨-, -, D, -, -, -⟩ := inv_reach_d c h
+  have h1 := D.freed_red x hf
+  have h2 := D.red_ring x h1.1
+  exact ⟨h1.1, h2.2, D.stopped_dead x h2.2, h1.2, fun t1 t2 g1 g2 => D.f_uniq t1 t2 x g1 g2⟩
+
+/-- **helper_futex_range**: `crdp->futex ∈ {0, -1}`; the helper decrements it only from 0; an RT (polling)
+helper never touches it. -/
+theorem helper_futex_range (c : Cfg) {s : State} (h : Reach c s) (x : Nat) :
+    (s.futex x = 0 ∨ s.futex x = -1) ∧ (s.hpc x = .dec0 ∨ s.hpc x = .dec → s.futex x = 0) ∧
+    (s.rt x = true → s.futex x = 0) := by
+  obtain ⟨-, -, -, -, -, W⟩ := inv_reach_d c h
+  refine ⟨W.w_range x, ?_, fun hr => (W.w_rt x hr).1⟩
+  rintro (h0 | h0) <;> exact W.w_zero x (by rw [h0]; rfl)
+
+/-- **helper_no_lost_wakeup** (every interleaving of any number of enqueuers, barriers, destroyers and
+helpers; every placement of spurious / EINTR / EAGAIN returns of `FUTEX_WAIT`; the `futex := 0` store of a
+waker delayed arbitrarily up to its `FUTEX_WAKE`): whenever a helper sleeps in `FUTEX_WAIT` although its
+queue is non-empty or STOP has been requested, some thread is still going to wake it: it is on the wake path
+and has not yet tested the futex with a stale value (it will read -1, reset the futex and call
+`FUTEX_WAKE`), or its `futex := 0` is done and its `FUTEX_WAKE` is still to come. -/
+theorem helper_no_lost_wakeup (c : Cfg) {s : State} (h : Reach c s) (x : Nat) (hs : s.hpc x = .asleep)
+    (hw : s.queue x ≠ [] ∨ s.stop x = true) :
+    ∃ t, willWake s t x ∨ (s.tpc t).waking = some x := by
+  obtain ⟨-, -, -, -, -, W⟩ := inv_reach_d c h
+  rcases W.w_range x with h0 | h1
+  · obtain ⟨t, ht⟩ := W.w_0 x hs h0
+    exact ⟨t, Or.inr ht⟩
+  · obtain ⟨t, ht⟩ := W.w_m1 x (by rw [hs]; rfl) h1 (by
+      rcases hw with hq | hst
+      · exact Or.inr ⟨by rw [hs]; decide, hq⟩
+      · exact Or.inl hst)
+    exact ⟨t, Or.inl ht⟩
+
+/-- a thread on the wake path always has an enabled step of its own (it never waits for anybody) -/
+theorem waker_not_stuck (c : Cfg) {s : State} (t x : Nat) (hk : willWake s t x ∨ (s.tpc t).waking = some x) :
+    ∃ l, l ∈ [Label.inc t, .ldFlags t, .ldFutex t, .stFutex t, .wake t, .fAddQ t] ∧ (step c s l).isSome = true := by
+  cases hp : s.tpc t <;> simp only [willWake, hp, TPc.waker, TPc.waking, TPc.isAddQ] at hk <;>
+    simp at hk
+  case inc h k => exact ⟨.inc t, by simp, by simp [step, hp]⟩
+  case ldFlags h k => exact ⟨.ldFlags t, by simp, by simp [step, hp]⟩
+  case ldFutex h k => exact ⟨.ldFutex t, by simp, by simp [step, hp]⟩
+  case stFutex h k => exact ⟨.stFutex t, by simp, by simp [step, hp]⟩
+  case wake h k => exact ⟨.wake t, by simp, by simp [step, hp]⟩
+  case fAddQ h => exact ⟨.fAddQ t, by simp, by simp [step, hp, hk]⟩
+
+/-- own-step measure of the wake path: at most 5 steps from the enqueue / splice to `FUTEX_WAKE` -/
+def wakeRank : TPc → Nat
+  | .fAddQ _ => 6 | .inc _ _ => 5 | .ldFlags _ _ => 4 | .ldFutex _ _ => 3 | .stFutex _ _ => 2 | .wake _ _ => 1
+  | _ => 0
+
+theorem wakeRank_cont (k : K) (h : Nat) : wakeRank (k.cont h) = 0 := by cases k <;> rfl
+
+/-- **waker_measure**: every own step of a thread on the wake path strictly decreases its rank -/
+theorem waker_measure (c : Cfg) {s s' : State} (t : Nat) {l : Label}
+    (hl : l ∈ [Label.inc t, .ldFlags t, .ldFutex t, .stFutex t, .wake t, .fAddQ t])
+    (st : step c s l = some s') : wakeRank (s'.tpc t) < wakeRank (s.tpc t) := by
+  simp only [List.mem_cons, List.mem_nil_iff, or_false] at hl
+  rcases hl with rfl | rfl | rfl | rfl | rfl | rfl <;> simp only [step] at st <;>
+    (repeat' split at st) <;> simp only [Option.some.injEq, reduceCtorEq] at st <;> subst st <;>
+    simp only [upd, ↓reduceIte, *] <;> (try split) <;> (try simp only [wakeRank_cont]) <;> simp [wakeRank]
+
+/-- the wake-up reaches the sleeping helper, and a waker that tests the futex of a sleeping helper reads -1 -/
+theorem wake_wakes (c : Cfg) {s s' : State} (t x : Nat) (k : K) (hp : s.tpc t = .wake x k) (hs : s.hpc x = .asleep)
+    (st : step c s (.wake t) = some s') : s'.hpc x = .waitLd := by
+  simp only [step, hp] at st
+  simp only [Option.some.injEq] at st; subst st; simp [hs, upd]
+
+/-- labels of helper `x`'s own thread (`call_rcu_thread`) -/
+def helperLabel (x : Nat) : Label → Bool
+  | .hStart y | .hDec0 y | .hTop y | .hPause y | .hUnpause y | .hSplice y | .hGpEnd y | .hRunBegin y _ | .hRunEnd y
+  | .hInvDone y | .hSub y | .hStopChk y | .hEmptyChk y | .hWaitLd y | .hWaitFx y _ | .hPollW y | .hDec y | .hPollN y
+  | .hExitSt y | .hExitOr y => y == x
+  | _ => false
+
+/-- **helper_no_stuck**: a helper thread that exists and has not exited always has an enabled step of its own,
+except where it legitimately waits for somebody else: for the readers (`gp`: `synchronize_rcu()`, C02), for the
+callback it runs (`run`), for the fork handler (`paused`), or asleep in `FUTEX_WAIT` (`helper_no_lost_wakeup`).
+It never takes `call_rcu_mutex`, so it cannot deadlock with creators, destroyers or barriers. -/
+theorem helper_no_stuck (c : Cfg) (s : State) (x : Nat)
+    (hp : s.hpc x ≠ .none ∧ s.hpc x ≠ .dead ∧ s.hpc x ≠ .gp ∧ s.hpc x ≠ .run ∧ s.hpc x ≠ .paused ∧ s.hpc x ≠ .asleep) :
+    ∃ l, helperLabel x l = true ∧ (step c s l).isSome = true := by
+  obtain ⟨h1, h2, h3, h4, h5, h6⟩ := hp
+  cases hpc : s.hpc x with
+  | none => exact absurd hpc h1
+  | dead => exact absurd hpc h2
+  | gp => exact absurd hpc h3
+  | run => exact absurd hpc h4
+  | paused => exact absurd hpc h5
+  | asleep => exact absurd hpc h6
+  | start => exact ⟨.hStart x, by simp [helperLabel], by simp [step, hpc]⟩
+  | dec0 => exact ⟨.hDec0 x, by simp [helperLabel], by simp [step, hpc]⟩
+  | top => exact ⟨.hTop x, by simp [helperLabel], by simp [step, hpc]⟩
+  | pausing => exact ⟨.hPause x, by simp [helperLabel], by simp [step, hpc]⟩
+  | splice => exact ⟨.hSplice x, by simp [helperLabel], by simp [step, hpc]; split <;> simp⟩
+  | inv =>
+    cases hb : s.batch x with
+    | nil => exact ⟨.hInvDone x, by simp [helperLabel], by simp [step, hpc, hb]⟩
+    | cons cb r => exact ⟨.hRunBegin x cb, by simp [helperLabel], by simp [step, hpc, hb]⟩
+  | sub => exact ⟨.hSub x, by simp [helperLabel], by simp [step, hpc]⟩
+  | stopchk => exact ⟨.hStopChk x, by simp [helperLabel], by simp [step, hpc]⟩
+  | emptychk => exact ⟨.hEmptyChk x, by simp [helperLabel], by simp [step, hpc]⟩
+  | waitLd => exact ⟨.hWaitLd x, by simp [helperLabel], by simp [step, hpc]⟩
+  | waitFx =>
+    by_cases hf : s.futex x = -1
+    · exact ⟨.hWaitFx x .sleep, by simp [helperLabel], by simp [step, hpc, hf]⟩
+    · exact ⟨.hWaitFx x .eagain, by simp [helperLabel], by simp [step, hpc, hf]⟩
+  | pollW => exact ⟨.hPollW x, by simp [helperLabel], by simp [step, hpc]⟩
+  | dec => exact ⟨.hDec x, by simp [helperLabel], by simp [step, hpc]⟩
+  | pollN => exact ⟨.hPollN x, by simp [helperLabel], by simp [step, hpc]⟩
+  | exitSt => exact ⟨.hExitSt x, by simp [helperLabel], by simp [step, hpc]⟩
+  | exitOr => exact ⟨.hExitOr x, by simp [helperLabel], by simp [step, hpc]⟩
+
+/-- position of a helper program point in one iteration of the loop of `call_rcu_thread` -/
+def hRank : HPc → Nat
+  | .start => 20 | .dec0 => 19 | .top => 18 | .pausing => 17 | .paused => 16 | .splice => 15 | .gp => 14 | .inv => 13
+  | .run => 13 | .sub => 12 | .stopchk => 11 | .emptychk => 10 | .waitLd => 9 | .waitFx => 8 | .asleep => 7 | .pollW => 6
+  | .dec => 5 | .pollN => 5 | .exitSt => 4 | .exitOr => 3 | .dead => 0 | .none => 0
+
+theorem length_tail_of_head? {l : List Nat} {a : Nat} (h : l.head? = some a) : l.tail.length + 1 = l.length := by
+  cases l <;> simp_all
+
+/-- own-step measure of helper `x`: position in the iteration, callbacks still to invoke -/
+def hMeasure (s : State) (x : Nat) : Nat :=
+  3 * hRank (s.hpc x) + 2 * ((s.batch x).length + (s.queue x).length) + (if (s.cur x).isSome then 1 else 0)
+
+/-- **helper_measure**: every own step of a helper strictly decreases `hMeasure`, except the two loop-back
+steps to the top of the loop (a new iteration, whose second step splices the queue) and the returns of
+`FUTEX_WAIT` to the futex re-check (`waitLd`; spurious / EINTR returns are environment choices).  Hence an
+iteration never stutters: from the top of the loop a non-paused helper splices a non-empty queue after 2 own
+steps and invokes its `n` callbacks within `3 + 2 n` further own steps once the grace period has ended. -/
+theorem helper_measure (c : Cfg) {s s' : State} (x : Nat) {l : Label} (hl : helperLabel x l = true)
+    (st : step c s l = some s') :
+    hMeasure s' x < hMeasure s x ∨ s'.hpc x = .top ∨ s'.hpc x = .waitLd := by
+  cases l <;> simp only [helperLabel, beq_iff_eq, Bool.false_eq_true] at hl <;> subst hl <;>
+    simp only [step] at st <;> (repeat' split at st) <;>
+    simp only [Option.some.injEq, reduceCtorEq] at st <;> subst st <;>
+    simp only [hMeasure, upd, ↓reduceIte] <;>
+    (try (rename_i hg; have hlen := length_tail_of_head? hg.2)) <;>
+    (try simp only [*, hRank, List.length_nil, Option.isSome_some, Option.isSome_none, ↓reduceIte, Bool.false_eq_true]) <;>
+    (repeat' split) <;> simp_all <;> (try omega)
+
+/-! ### The full statement -/
+
+/-- an infinite run of the model -/
+structure Run (c : Cfg) where
+  st : Nat → State
+  lab : Nat → Label
+  start : st 0 = init
+  next : ∀ i, step c (st i) (lab i) = some (st (i + 1))
+
+/-- labels executed by thread `t` of the model as a user / API thread -/
+def threadLabel (t : Nat) : Label → Bool
+  | .crSelThr u | .crSelCpu u _ | .crSelNoCpu u _ | .gdLd u | .gdLock u | .gdCreate u | .gdUnlock u | .enq u | .inc u
+  | .ldFlags u | .ldFutex u | .stFutex u | .wake u | .crRet u | .opLock u | .opDo u | .opUnlock u | .fLdFlags u
+  | .fOrStop u | .fSeeStopped u | .fLock u | .fChk u | .fUnlock1 u | .fLock2 u | .fSplice u | .fAddQ u | .fDel u
+  | .fJoin u | .fFree u | .syncEnd u => u == t
+  | _ => false
+
+/-- scheduler fairness and the environment assumptions of the property text: a helper thread / an API call
+whose next step stays enabled is eventually scheduled; read-side sections end; callbacks terminate; the fork
+handlers do not keep helpers paused for ever -/
+def Fair (c : Cfg) (r : Run c) : Prop :=
+  (∀ x i, (∀ j, i ≤ j → ∃ l, helperLabel x l = true ∧ (step c (r.st j) l).isSome = true) →
+      ∃ j, i ≤ j ∧ helperLabel x (r.lab j) = true) ∧
+  (∀ t i, (∀ j, i ≤ j → ∃ l, threadLabel t l = true ∧ (step c (r.st j) l).isSome = true) →
+      ∃ j, i ≤ j ∧ threadLabel t (r.lab j) = true) ∧
+  (∀ t i, 0 < (r.st i).nest t → (r.st i).tpc t = .idle → ∃ j, i ≤ j ∧ (r.st j).nest t = 0) ∧
+  (∀ x i, (r.st i).hpc x = .run → ∃ j, i ≤ j ∧ (r.st j).hpc x ≠ .run) ∧
+  (∀ x i, (r.st i).pause x = true → ∃ j, i ≤ j ∧ (r.st j).pause x = false)
+
+/-- **C03_full** — NOT PROVED.  The property text's "each callback is *eventually* invoked exactly once": on every
+fair run every callback passed to `call_rcu()` eventually finishes, and all the safety theorems of this file
+hold along the run.  What is missing is the temporal (liveness) argument from `helper_no_lost_wakeup` +
+`waker_not_stuck` + `waker_measure` + `helper_no_stuck` + `helper_measure` + C02 (the helper's
+`synchronize_rcu()` returns) to "eventually", which needs reasoning about infinite fair runs (well-founded
+ranking over the whole system, including the destroy / hand-over races) that is not mechanised here. -/
+def C03_full : Prop :=
+  ∀ (c : Cfg) (r : Run c), Fair c r → ∀ id i, (r.st i).reg id = true → ∃ j, i ≤ j ∧ (r.st j).fin id = true ∧ (r.st j).invN id = 1
+
+/-- **C03_partial** (everything of C03 except "eventually"): in every reachable state, for every callback `id`
+that has been passed to `call_rcu()`: it has been invoked at most once; it is in exactly one place (in flight,
+one queue, one batch, running, or finished) – in particular it is never lost, also across `call_rcu_data_free`;
+if it is queued, its helper is alive, not retired and known to `rcu_barrier()`; if its helper sleeps, somebody
+is about to wake it; and while it runs, a grace period that began after its enqueue has elapsed. -/
+theorem C03_partial (c : Cfg) {s : State} (h : Reach c s) (id : Nat) (hr : s.reg id = true) :
+    s.invN id ≤ 1 ∧
+    (∃ p, At s id p ∧ ∀ q, At s id q → q = p) ∧
+    (∀ x, id ∈ s.queue x ∨ id ∈ s.batch x ∨ s.cur x = some id → s.retired x = false ∧ s.freed x = false ∧ x ∈ s.list) ∧
+    (∀ x, id ∈ s.queue x → s.hpc x = .asleep → ∃ t, willWake s t x ∨ (s.tpc t).waking = some x) ∧
+    (∀ x, s.cur x = some id → s.enqT id < s.hgp x ∧ ∀ t, 0 < s.nest t → s.enqT id < s.cs t) := by
+  refine ⟨(cb_at_most_once c h id).1, (cb_conserved c h id hr).1, ?_, ?_, ?_⟩
+  · intro x hx
+    have hne : s.queue x ≠ [] ∨ s.batch x ≠ [] ∨ s.cur x ≠ none := by
+      rcases hx with hx | hx | hx
+      · exact Or.inl (by intro h0; rw [h0] at hx; simp at hx)
+      · exact Or.inr (Or.inl (by intro h0; rw [h0] at hx; simp at hx))
+      · exact Or.inr (Or.inr (by rw [hx]; simp))
+    have hl := holder_listed c h x hne
+    have hnr : s.retired x = false := by
+      cases hrx : s.retired x with
+      | false => rfl
+      | true =>
+        have := retired_empty c h x hrx
+        rcases hne with h0 | h0 | h0
+        · exact absurd this.1 h0
+        · exact absurd this.2.1 h0
+        · exact absurd this.2.2 h0
+    refine ⟨hnr, ?_, hl⟩
+    cases hf : s.freed x with
+    | false => rfl
+    | true =>
+      have := ((inv_reach_d c h).2.2.1.freed_red x hf).1
+      rw [hnr] at this; exact absurd this (by decide)
+  · intro x hx hs
+    exact helper_no_lost_wakeup c h x hs (Or.inl (by intro h0; rw [h0] at hx; simp at hx))
+  · intro x hx
+    have := cb_after_gp c h x id hx
+    exact ⟨this.1, this.2.2⟩
+
+/-! ### The handshake with an explicit x86-TSO store buffer (`CallRcu/Wake.lean`) -/
+
+/-- **tso_no_lost_wakeup** (x86-TSO, any number of wakers enqueueing any number of times, all interleavings,
+all spurious-return placements): whenever the helper sleeps in `FUTEX_WAIT` with a non-empty queue, some
+waker has not yet tested the futex with a stale value, or its `futex := 0` store is in its store buffer /
+committed and its `FUTEX_WAKE` is still to come. -/
+theorem tso_no_lost_wakeup (c : CallRcuWake.Cfg) (hc : c.decAfter = false) {s : CallRcuWake.State}
+    (h : CallRcuWake.Reach c s) (hs : s.hpc = .asleep) (hq : s.q ≠ 0) :
+    ∃ i, i < c.n ∧ (CallRcuWake.willWake s i ∨ s.kpc i = .k3) := by
+  have I := CallRcuWake.inv_reach c hc h
+  rcases I.fut_range with h0 | h1
+  · obtain ⟨i, hi, hk⟩ := I.asleep_0 hs h0
+    exact ⟨i, hi, Or.inr hk⟩
+  · obtain ⟨i, hi, hk⟩ := I.asleep_m1 (by rw [hs]; rfl) h1 hq
+    exact ⟨i, hi, Or.inl hk⟩
+
+/-- Necessity (`Neg`): if the helper decremented the futex only *after* its emptiness check, the wake-up IS
+lost: the waker enqueues after the check, reads `futex = 0` and skips the wake-up; the helper then decrements
+and sleeps with a non-empty queue and nobody left to wake it. -/
+theorem lost_wakeup_if_dec_after_check :
+    let c : CallRcuWake.Cfg := { n := 1, decAfter := true }
+    (CallRcuWake.run c (CallRcuWake.init c) [.hTake, .hChk, .kEnq 0, .kLd 0, .kSkip 0, .hDec, .hWaitLd, .hWaitFx .sleep]).map
+      (fun s => (s.hpc, s.futex, s.q, s.kpc 0, s.bfut 0)) = some (.asleep, -1, 1, .k0, false) := by decide
+
+/-- Non-vacuity (TSO model): the helper sleeps, a waker enqueues, its buffered `futex := 0` is flushed only
+after the helper went to sleep, `FUTEX_WAKE` wakes it and the callback is taken. -/
+example :
+    let c : CallRcuWake.Cfg := { n := 2 }
+    (CallRcuWake.run c (CallRcuWake.init c) [.hDec, .hTake, .hChk, .hWaitLd, .kEnq 1, .kLd 1, .kSt 1, .hWaitFx .sleep, .flush 1,
+      .kWake 1, .hWaitLd, .hDec, .hTake]).map (fun s => (s.hpc, s.futex, s.q, s.taken)) = some (.chk, -1, 0, 1) := by decide
+/-- `FUTEX_WAKE` cannot overtake the buffered store -/
+example :
+    let c : CallRcuWake.Cfg := { n := 1 }
+    CallRcuWake.run c (CallRcuWake.init c) [.hDec, .kEnq 0, .kLd 0, .kSt 0, .kWake 0] = none := by decide
+
+/-! ### Non-vacuity on the full model -/
+
+def cfg2 : Cfg := { n := 2, ncpu := 1 }
+
+/-- the default helper is created lazily, goes to sleep, is woken by the enqueue, runs a grace period and
+invokes the callback exactly once -/
+example : (run cfg2 init [.crCall 0 7, .crSelNoCpu 0 0, .gdLd 0, .gdLock 0, .gdCreate 0, .gdUnlock 0,
+    .hStart 0, .hDec0 0, .hTop 0, .hSplice 0, .hStopChk 0, .hEmptyChk 0, .hWaitLd 0, .hWaitFx 0 .sleep,
+    .enq 0, .inc 0, .ldFlags 0, .ldFutex 0, .stFutex 0, .wake 0, .crRet 0,
+    .hWaitLd 0, .hPollW 0, .hDec 0, .hTop 0, .hSplice 0, .hGpEnd 0, .hRunBegin 0 7, .hRunEnd 0, .hInvDone 0, .hSub 0]).map
+    (fun s => (s.loc 7, s.invN 7, s.fin 7, s.qlen 0, s.futex 0, s.hpc 0)) = some (.done, 1, true, 0, -1, .stopchk) := by decide
+
+/-- the grace period of the helper cannot end while a section that began before it is open -/
+example : run cfg2 init [.rlock 1, .crCall 0 7, .crSelNoCpu 0 0, .gdLd 0, .gdLock 0, .gdCreate 0, .gdUnlock 0, .enq 0,
+    .hStart 0, .hDec0 0, .hTop 0, .hSplice 0, .hGpEnd 0] = none := by decide
+
+def trFree1 : List Label := [.opCall 0 (.create false), .opLock 0, .opDo 0, .opUnlock 0, .setThr 0 (some 0),
+    .crCall 0 5, .crSelThr 0, .enq 0, .inc 0, .ldFlags 0, .ldFutex 0, .crRet 0, .setThr 0 none]
+def trFree2 : List Label := [.fCall 1 0, .fLdFlags 1, .fOrStop 1, .ldFlags 1, .ldFutex 1,
+    .hStart 0, .hDec0 0, .hTop 0, .hSplice 0, .hGpEnd 0, .hRunBegin 0 5,
+    .crCall 2 6, .crSelThr 2, .enq 2, .inc 2, .ldFlags 2, .ldFutex 2, .stFutex 2, .wake 2, .crRet 2,
+    .hRunEnd 0, .hInvDone 0, .hSub 0, .hStopChk 0, .hExitSt 0, .hExitOr 0]
+def trFree3 : List Label := [.fSeeStopped 1, .fLock 1, .fChk 1, .fUnlock1 1, .gdLd 1, .gdLock 1, .gdCreate 1, .gdUnlock 1,
+    .fLock2 1, .fSplice 1, .fAddQ 1, .ldFlags 1, .ldFutex 1, .fDel 1, .fJoin 1, .fFree 1]
+
+/-- a per-thread helper is destroyed while a callback re-enqueues on it: the leftover is handed over to the
+(lazily created) default helper, the structure is freed afterwards -/
+example : (run cfg2 init (trFree1 ++ trFree2 ++ trFree3)).map
+    (fun s => (s.loc 5, s.loc 6, s.queue 1, s.freed 0)) = some (.done, .queue 1, [6], true) := by decide
+example : (run cfg2 init (trFree1 ++ trFree2 ++ trFree3)).map
+    (fun s => (s.list, s.qlen 1, s.hpc 0, s.retired 0)) = some ([1], 1, .dead, true) := by decide
+
+/-- `call_rcu_data_free` on a helper that is still some thread's per-thread helper violates the documented
+contract and is not a step of the model -/
+example : run cfg2 init [.opCall 0 (.create false), .opLock 0, .opDo 0, .opUnlock 0, .setThr 0 (some 0), .fCall 1 0] = none := by
+  decide
 
 end UrcuVerif.CallRcu
